@@ -101,6 +101,152 @@ theorem guarded_write_stale (p g : Nat) (s : DB R) (hst : ¬ RpAt p g s) :
       · exact absurd (cas_commit hg hc).1 hst
     · exact ⟨rfl, _, rfl, errAggs_not_ok _⟩
 
+/-! ### commit or quiet: the guarded requests including PUT traits -/
+
+section coq
+variable {u : Nat} {o : Option Nat}
+
+/-- a write transaction that answers at once: success is a commit on `(p, g)` or changes nothing,
+failure changes nothing -/
+theorem write_coq {p g : Nat} {f : DB R → DB R × P R} (ho : o = some p)
+    (h : ∀ s, Ids s.gcore → (∃ r, (f s).2 = .done r) ∧ ((f s).1 = s ∨ (RpAt p g s ∧ BRp p g s (f s).1))) :
+    CoQ (WRp u o) (CRp (R := R) u p g) (BRp p g) (.txn .main f) :=
+  .txn _ _
+    (fun s hw hn => (h s hw.1).2.resolve_right (fun hc => hn ⟨⟨hw.2.trans ho, hc.1⟩, hc.2⟩))
+    (fun s hw => by obtain ⟨r, hr⟩ := (h s hw.1).1; rw [hr]; exact .done r)
+
+theorem tInvSetW_coq (p g : Nat) (invs : List (InvSpec R)) (ho : o = some p) :
+    CoQ (WRp u o) (CRp (R := R) u p g) (BRp p g) (.txn .main (tInvSetW p g invs)) :=
+  write_coq ho (fun s _ => by
+    unfold tInvSetW
+    split
+    · rename_i db' h
+      obtain ⟨db0, hg, hc⟩ := setInventory_ok h
+      obtain ⟨h1, h2, h3⟩ := cas_commit hg hc
+      exact ⟨⟨_, rfl⟩, .inr ⟨h1, h2, h3⟩⟩
+    · exact ⟨⟨_, rfl⟩, .inl rfl⟩)
+
+theorem tInvUpdateW_coq (p g : Nat) (inv : InvSpec R) (ho : o = some p) :
+    CoQ (WRp u o) (CRp (R := R) u p g) (BRp p g) (.txn .main (tInvUpdateW p g inv)) :=
+  write_coq ho (fun s _ => by
+    unfold tInvUpdateW
+    split
+    · rename_i db' h
+      obtain ⟨db0, hg, hc⟩ := updateInventory_ok h
+      obtain ⟨h1, h2, h3⟩ := cas_commit hg hc
+      exact ⟨⟨_, rfl⟩, .inr ⟨h1, h2, h3⟩⟩
+    · exact ⟨⟨_, rfl⟩, .inl rfl⟩)
+
+theorem tAggsSetW_coq (p g : Nat) (aggs : List Nat) (ho : o = some p) :
+    CoQ (WRp u o) (CRp (R := R) u p g) (BRp p g) (.txn .main (tAggsSetW p g aggs true)) :=
+  write_coq ho (fun s _ => by
+    unfold tAggsSetW
+    split
+    · rename_i db' h
+      rcases setAggregates_ok h with ⟨hf, -⟩ | ⟨-, db0, hg, hc⟩
+      · cases hf
+      · obtain ⟨h1, h2, h3⟩ := cas_commit hg hc
+        exact ⟨⟨_, rfl⟩, .inr ⟨h1, h2, h3⟩⟩
+    · exact ⟨⟨_, rfl⟩, .inl rfl⟩)
+
+theorem tRpTraitsSetW_coq (p g : Nat) (ts : List Nat) (ho : o = some p) :
+    CoQ (WRp u o) (CRp (R := R) u p g) (BRp p g) (.txn .main (tRpTraitsSetW p g ts)) :=
+  write_coq ho (fun s _ => by
+    unfold tRpTraitsSetW
+    split
+    · rename_i db' h
+      rcases setTraits_ok h with ⟨-, rfl⟩ | ⟨-, db0, hg, hc⟩
+      · exact ⟨⟨_, rfl⟩, .inl rfl⟩
+      · obtain ⟨h1, h2, h3⟩ := cas_commit hg hc
+        exact ⟨⟨_, rfl⟩, .inr ⟨h1, h2, h3⟩⟩
+    · exact ⟨⟨_, rfl⟩, .inl rfl⟩)
+
+/-- a read transaction: the state is unchanged -/
+theorem read_coq {p g : Nat} {l : Lbl} {f : DB R → DB R × P R}
+    (h : ∀ s, WRp u o s → (f s).1 = s ∧ CoQ (WRp u o) (CRp (R := R) u p g) (BRp p g) (f s).2) :
+    CoQ (WRp u o) (CRp (R := R) u p g) (BRp p g) (.txn l f) :=
+  .txn _ _ (fun s hw _ => (h s hw).1) (fun s hw => (h s hw).2)
+
+theorem pInvSet_coq (mv g : Nat) (invs : List (InvSpec R)) (p : Nat) (ho : ∀ p', o = some p' → p' = p) :
+    CoQ (WRp u o) (CRp (R := R) u p g) (BRp p g) (pInvSet mv u g invs) :=
+  read_coq (fun s hw => by
+    unfold tInvSetR
+    split
+    · exact ⟨rfl, .done _⟩
+    · rename_i rp hrp
+      have ho' : o = some rp.id := by rw [← hw.2]; simp [rpIdOf, hrp]
+      have hid : rp.id = p := ho rp.id ho'
+      rw [hid] at ho'
+      split
+      · exact ⟨rfl, .done _⟩
+      · rename_i hg
+        split
+        · exact ⟨rfl, .done _⟩
+        · have : rp.gen = g := Eq.symm (by simpa using hg)
+          rw [hid, this]; exact ⟨rfl, tInvSetW_coq p g invs ho'⟩)
+
+theorem pInvUpdate_coq (mv g : Nat) (inv : InvSpec R) (p : Nat) (ho : ∀ p', o = some p' → p' = p) :
+    CoQ (WRp u o) (CRp (R := R) u p g) (BRp p g) (pInvUpdate mv u g inv) :=
+  read_coq (fun s hw => by
+    unfold tInvUpdateR
+    split
+    · exact ⟨rfl, .done _⟩
+    · rename_i rp hrp
+      have ho' : o = some rp.id := by rw [← hw.2]; simp [rpIdOf, hrp]
+      have hid : rp.id = p := ho rp.id ho'
+      rw [hid] at ho'
+      split
+      · exact ⟨rfl, .done _⟩
+      · rename_i hg
+        split
+        · exact ⟨rfl, .done _⟩
+        · have : rp.gen = g := Eq.symm (by simpa using hg)
+          rw [hid, this]; exact ⟨rfl, tInvUpdateW_coq p g inv ho'⟩)
+
+theorem pAggsSet_coq (mv g : Nat) (hmv : mv ≥ 19) (aggs : List Nat) (p : Nat) (ho : ∀ p', o = some p' → p' = p) :
+    CoQ (WRp u o) (CRp (R := R) u p g) (BRp p g) (pAggsSet mv u (some g) aggs) := by
+  unfold pAggsSet
+  rw [if_neg (by omega)]
+  exact read_coq (fun s hw => by
+    unfold tAggsSetR
+    split
+    · exact ⟨rfl, .done _⟩
+    · rename_i rp hrp
+      have ho' : o = some rp.id := by rw [← hw.2]; simp [rpIdOf, hrp]
+      have hid : rp.id = p := ho rp.id ho'
+      rw [hid] at ho'
+      dsimp only
+      have hd : decide (mv ≥ 19) = true := by simpa using hmv
+      rw [hd]
+      split
+      · exact ⟨rfl, .done _⟩
+      · rename_i hg
+        have : rp.gen = g := Eq.symm (by simpa using hg)
+        rw [hid, this]; exact ⟨rfl, tAggsSetW_coq p g aggs ho'⟩)
+
+theorem pRpTraitsSet_coq (g : Nat) (ts : List Nat) (p : Nat) (ho : ∀ p', o = some p' → p' = p) :
+    CoQ (WRp u o) (CRp (R := R) u p g) (BRp p g) (pRpTraitsSet u g ts) :=
+  read_coq (fun s hw => by
+    unfold tRpTraitsSetR
+    split
+    · exact ⟨rfl, .done _⟩
+    · rename_i rp hrp
+      have ho' : o = some rp.id := by rw [← hw.2]; simp [rpIdOf, hrp]
+      have hid : rp.id = p := ho rp.id ho'
+      rw [hid] at ho'
+      split
+      · exact ⟨rfl, .done _⟩
+      · rename_i hg
+        have : rp.gen = g := by simpa using hg
+        rw [hid, this]
+        refine ⟨rfl, read_coq (fun s2 _ => ?_)⟩
+        unfold tRpTraitsSetT
+        split
+        · exact ⟨rfl, .done _⟩
+        · exact ⟨rfl, tRpTraitsSetW_coq p g ts ho'⟩)
+
+end coq
+
 /-! ### requests that derive the generation -/
 
 /-- the write of a deriving request succeeded against the provider row read before: the provider
